@@ -519,3 +519,43 @@ reg(Prop("C19", g_c19, {"value": "C19.a", "count_extra": "C19.b", "count_missing
                         "state_leak": "C19.d", "raise": "C19.a", "args": "C19.a"}, nontrivial="multi", n_sched=2, quick=1500))
 reg(Prop("C15", g_c15, {"value": "C15.a", "count_extra": "C15.a", "count_missing": "C15.a", "args": "C15.a", "raise": "C15.a",
                         "state_leak": "C15.b", "rerun": "C15.c", "noraise": "C15.a"}, nontrivial="multi", n_sched=2, quick=1500))
+
+
+# ----------------------------------------------------------------------------- C16 thread safety
+P_C16 = gen.profile(**{**gen.SCHED, "n_stmts": (1, 5), "p_flag": 0.1, "n_params": (1, 2), "p_default": 0.3, "p_setup": 0.0,
+                       "w_nested": 1.5, "max_depth": 1, "p_async": 0.0, "all_return": False, "ret_shapes": [("tuple", 2), ("single", 1)]})
+
+
+def g_c16(d: Draw) -> dict:
+    spec = gen.gen_program(d, P_C16)
+    dg = spec["dags"]["main"]
+    nclients = d.int(2, 3)
+    clients: List[List[dict]] = []
+    fnames = sorted(spec["funcs"])
+    for c in range(nclients):
+        ops: List[dict] = []
+        for _ in range(d.count(1, 3, 0.5)):
+            mode = d.weighted([("call", 5), ("build", 4), ("xn", 2)])
+            if mode == "call":
+                ops.append(dict(op="call", inst="E:main", args=draw_args(d, dg)))
+            elif mode == "build":
+                pauses: Dict[str, Dict[str, str]] = {}
+                for dn in spec["order"]:
+                    n = len(spec["dags"][dn]["stmts"])
+                    for idx in d.sample(list(range(n)), d.int(0, min(2, n))):
+                        pauses.setdefault(dn, {})[str(idx)] = "raise" if d.bool(0.12) else "pause"
+                env = f"B{c}_{len(ops)}"
+                ops.append(dict(op="build", env=env, dags=spec["order"], pauses=pauses, snapshot=True))
+                if d.bool(0.5) and not any(v == "raise" for ps in pauses.values() for v in ps.values()):
+                    ops.append(dict(op="call", inst=f"{env}:main", args=draw_args(d, dg)))
+            else:
+                ops.append(dict(op="xn_outside", fn=d.pick(fnames), args=[d.pick(ARG_VALUES) for _ in range(d.int(0, 2))]))
+        clients.append(ops)
+    scn = dict(program=spec, refbuild=[dict(dags=spec["order"])], prebuild=[dict(dags=spec["order"])], clients=clients)
+    scn["line_points"] = sorted(d.sample(list(range(1, 1200)), d.int(0, 3)))
+    return scn
+
+
+reg(Prop("C16", g_c16, {"value": "C16.a", "build_table": "C16.c", "raise": "C16.d", "wrongexc": "C16.d", "noraise": "C16.d",
+                        "args": "C16.a", "count_extra": "C16.a", "count_missing": "C16.a"},
+         nontrivial="concurrent", n_sched=3, quick=1200, thorough=30000))
